@@ -55,7 +55,7 @@ func pathMeetsZeroWidth(dupOfLeft []bool, idx int, levels int) bool {
 func TestC30(t *testing.T) {
 	harness.Check(t, "C30",
 		"a valid (root, proof, leaf) triple from a generated tree (n like C29 up to 150, both parent-hash formats via the real globals), 3 leaf indices per tree, and for each EVERY single-field "+
-			"mutation of a fixed catalogue: 8 leaf fields, leaf of another index, target index -> sibling / each single path bit flipped / random in-tree index, index + k*2^levels (index-binding "+
+			"mutation of a fixed catalogue: 8 leaf fields (relay evidence) or 15 (challenge evidence, a quarter of the trees: signature, payload and answered proof of each of the three responses), leaf of another index, target index -> sibling / each single path bit flipped / random in-tree index, index + k*2^levels (index-binding "+
 			"format only: the legacy hash does not bind the index and the keeper only admits index < total), target hash bit / lower / upper, per level sibling hash bit, lower+-1, upper+-1, the boundary shared by two same-side siblings shifted in both (continuity preserved), "+
 			"dropped first/last level, duplicated level, swapped levels (level count = len as the keeper passes it), root hash bit / upper+-1 / lower=1, root of another relay set, other hash format. "+
 			"Oracle: the unmutated triple verifies, every mutation gives isValid=false. 1/3 of cases: multiset with 1-3 duplicated relays; oracle from a hash-free model of empty ranges: path meets an "+
@@ -63,7 +63,7 @@ func TestC30(t *testing.T) {
 			"and claim deleted when REPBR is active. non-trivial = mutation case in which a mutated branch contains a padding sibling (every mutation case already contains sibling range-bound mutations and "+
 			"level-0-parity-preserving index changes, see class labels), or a duplicate tree with a replay path",
 		map[string]float64{"mutations": 0.5, "duplicates": 0.2, "replay-path": 0.15, "clean-path-in-duplicate-tree": 0.12, "legacy-hash": 0.2, "index-binding-hash": 0.35,
-			"index-out-of-tree": 0.25, "sibling-range-bound": 0.5, "index-change-keeps-level0-parity": 0.5, "padding-sibling-on-path": 0.2, "coordinated-boundary-shift": 0.4, "keeper-replay-burn": 0.02, "keeper-clean-reward": 0.015},
+			"index-out-of-tree": 0.25, "sibling-range-bound": 0.5, "index-change-keeps-level0-parity": 0.5, "padding-sibling-on-path": 0.2, "coordinated-boundary-shift": 0.4, "keeper-replay-burn": 0.02, "keeper-clean-reward": 0.015, "challenge-evidence-leaves": 0.08},
 		func(rt *rapid.T, c *harness.Case) {
 			if rapid.IntRange(0, 2).Draw(rt, "caseKind") == 0 {
 				c30Duplicates(rt, c)
@@ -80,10 +80,18 @@ func TestC30(t *testing.T) {
 				c.Label("legacy-hash")
 			}
 			rs := newRelaySet(seed, f.height)
+			// a quarter of the trees commit challenge evidence (leaves are ChallengeProofInvalidData) instead of relay evidence
+			challengeTree := rapid.Bool().Draw(rt, "challengeTreeA") && rapid.Bool().Draw(rt, "challengeTreeB")
 			input := shuffled(rs.proofs(n), seed^0x5555)
+			otherInput := newRelaySet(seed+1, f.height).proofs(n)
+			if challengeTree {
+				c.Label("challenge-evidence-leaves")
+				input = shuffled(rs.challengeProofs(n), seed^0x5555)
+				otherInput = newRelaySet(seed+1, f.height).challengeProofs(n)
+			}
 			L := keeperLevels(n)
 			root, sortedLeaves := pc.GenerateRoot(f.height, cloneProofs(input))
-			otherRoot, _ := pc.GenerateRoot(f.height, newRelaySet(seed+1, f.height).proofs(n))
+			otherRoot, _ := pc.GenerateRoot(f.height, otherInput)
 			var altRoot pc.HashRange
 			if f.alt >= 0 {
 				altRoot, _ = pc.GenerateRoot(f.alt, cloneProofs(input))
@@ -107,13 +115,41 @@ func TestC30(t *testing.T) {
 						c.NonTrivial()
 					}
 				}
-				rl := leaf.(pc.RelayProof)
 				var muts []c30Mut
 				add := func(name string, m pc.MerkleProof, r pc.HashRange, lf pc.Proof, labels ...string) {
 					muts = append(muts, c30Mut{name: name, mp: m, root: r, leaf: lf, height: f.height, labels: labels})
 				}
 				// --- the leaf
-				{
+				if cl, isChallenge := leaf.(pc.ChallengeProofInvalidData); isChallenge {
+					// every component of each of the three responses the leaf commits to (signature, payload, and the relay
+					// proof it answers, identified by its signed hash)
+					mutResp := func(which string, get func(*pc.ChallengeProofInvalidData) *pc.RelayResponse) {
+						cp := func() pc.ChallengeProofInvalidData {
+							d := cl
+							d.MajorityResponses = append([]pc.RelayResponse(nil), cl.MajorityResponses...)
+							return d
+						}
+						d := cp()
+						get(&d).Signature = detHex(64, "other-resp-sig", seed)
+						add("leaf."+which+".signature", cloneMerkleProof(mp), root, d)
+						d = cp()
+						get(&d).Response += "x"
+						add("leaf."+which+".payload", cloneMerkleProof(mp), root, d)
+						d = cp()
+						get(&d).Proof.Entropy++
+						add("leaf."+which+".proof.entropy+1", cloneMerkleProof(mp), root, d)
+						d = cp()
+						get(&d).Proof.Signature = detHex(64, "other-proof-sig", seed)
+						add("leaf."+which+".proof.signature", cloneMerkleProof(mp), root, d)
+						d = cp()
+						get(&d).Proof.ServicerPubKey = detHex(32, "other-challenge-servicer", seed)
+						add("leaf."+which+".proof.servicerPubKey", cloneMerkleProof(mp), root, d)
+					}
+					mutResp("majority[0]", func(d *pc.ChallengeProofInvalidData) *pc.RelayResponse { return &d.MajorityResponses[0] })
+					mutResp("majority[1]", func(d *pc.ChallengeProofInvalidData) *pc.RelayResponse { return &d.MajorityResponses[1] })
+					mutResp("minority", func(d *pc.ChallengeProofInvalidData) *pc.RelayResponse { return &d.MinorityResponse })
+				} else {
+					rl := leaf.(pc.RelayProof)
 					l := rl
 					l.Entropy++
 					add("leaf.entropy+1", cloneMerkleProof(mp), root, l)
